@@ -46,7 +46,6 @@ type PacedCase struct {
 	Calls        []PCall `json:"calls"`
 	Shots        int     `json:"shots"`
 	Instances    int     `json:"instances"`
-	Shared       bool    `json:"shared_client,omitempty"`
 	Mode         string  `json:"mode"` // what the generator built the case around (see genPaced)
 }
 
@@ -152,7 +151,6 @@ func genPaced(t *rapid.T) PacedCase {
 	}
 	c.Instances = rapid.IntRange(1, 2).Draw(t, "instances")
 	c.Shots = rapid.IntRange(c.Instances, 2).Draw(t, "shots")
-	c.Shared = rapid.IntRange(0, 2).Draw(t, "shared") == 0
 	return c
 }
 
@@ -243,9 +241,6 @@ func checkPaced(c PacedCase, o *vf.Obs) error {
 	out := pand.TempName("c20p", ".phout")
 	defer pand.Remove(out)
 	gun := map[string]any{"type": "grpc/scenario", "target": tg.Addr(), "timeout": fmt.Sprintf("%dms", c.TimeoutMs)}
-	if c.Shared {
-		gun["shared-client"] = map[string]any{"enabled": true}
-	}
 	pool := map[string]any{
 		"id": "p", "gun": gun,
 		"ammo":    map[string]any{"type": "grpc/scenario", "file": name, "limit": c.Shots},
@@ -377,7 +372,6 @@ func checkPaced(c PacedCase, o *vf.Obs) error {
 	o.ClassIf(lateWithin, "call_starts_late_within_timeout")
 	o.ClassIf(c.Instances >= 2, "instances_ge_2")
 	o.ClassIf(c.Shots >= 2, "invocations_ge_2")
-	o.ClassIf(c.Shared, "shared_client")
 	if beyond {
 		o.NonTrivial()
 	}
